@@ -7,7 +7,9 @@ package c14
 import (
 	"encoding/json"
 	"os"
+	"runtime"
 	"sync"
+	"sync/atomic"
 	"time"
 
 	"github.com/plgd-dev/go-coap/v3/pkg/cache"
@@ -408,6 +410,47 @@ func Stress(out string, bursts int) {
 		}
 		w.Put(runFree(p))
 	}
+	// contended bursts: two kinds of mutators, two threads each, all on ONE key, released together by a spin barrier -
+	// the overlap a free-running burst rarely gets (every pair of critical sections of the two methods meets); every
+	// thread then reads the key, so that a value that was lost or handed out twice shows in the history
+	mut := []string{"store", "los", "losf", "delete", "lad", "replace", "storef", "replacef", "deletef", "ladf", "ladall"}
+	reps := bursts / 4
+	if reps < 8 {
+		reps = 8
+	}
+	for a := 0; a < len(mut); a++ {
+		for b := a; b < len(mut); b++ {
+			for rep := 0; rep < reps; rep++ {
+				p := Program{Keys: []int{1, 2}, Init: []Op{}}
+				if rep%4 != 3 {
+					p.Init = append(p.Init, Op{"store", 1, 7})
+				}
+				for t, m := range []string{mut[a], mut[b], mut[a], mut[b]} {
+					p.Prog = append(p.Prog, []Op{{m, 1, 100 + t*10}, {"load", 1, 0}})
+				}
+				w.Put(runFree(p))
+			}
+		}
+	}
+	// the same for the expiring cache: the key holds nothing / a valid element / an expired element (odd = expired)
+	cmut := []string{"clos", "cload", "cdelete", "sweep"}
+	for a := 0; a < len(cmut); a++ {
+		for b := a; b < len(cmut); b++ {
+			for rep := 0; rep < reps; rep++ {
+				p := Program{Keys: []int{1, 2}, Init: []Op{}}
+				switch rep % 3 {
+				case 0:
+					p.Init = append(p.Init, Op{"clos", 1, 12})
+				case 1:
+					p.Init = append(p.Init, Op{"clos", 1, 13})
+				}
+				for t, m := range []string{cmut[a], cmut[b], cmut[a], cmut[b]} {
+					p.Prog = append(p.Prog, []Op{{m, 1, 20 + t*4 + int(next()%2)}, {"cload", 1, 0}})
+				}
+				w.Put(runFree(p))
+			}
+		}
+	}
 }
 
 func runFree(p Program) Trace {
@@ -503,7 +546,7 @@ func runFree(p Program) Trace {
 	var clk atomicInt
 	var hmu sync.Mutex
 	var wg sync.WaitGroup
-	start := make(chan struct{})
+	var ready atomic.Int64
 	for t := range p.Prog {
 		wg.Add(1)
 		go func(t int) {
@@ -515,7 +558,11 @@ func runFree(p Program) Trace {
 					hmu.Unlock()
 				}
 			}()
-			<-start
+			// spin barrier: all threads enter their first operation within nanoseconds of each other
+			ready.Add(1)
+			for ready.Load() < int64(len(p.Prog)) {
+				runtime.Gosched()
+			}
 			for i, op := range p.Prog[t] {
 				call := clk.inc()
 				res := exec(op)
@@ -526,7 +573,6 @@ func runFree(p Program) Trace {
 			}
 		}(t)
 	}
-	close(start)
 	wg.Wait()
 	return tr
 }
